@@ -243,6 +243,12 @@ def run_children(cases: list[dict[str, Any]], vars_: list[dict[str, Any]], chunk
         for v in vars_:
             for off in range(0, len(cases), chunk):
                 jobs.append((v, cases[off:off + chunk], len(jobs)))
+        vendor_dir = os.path.join(tmp, "site-vendor")
+        if any("vendor" in v for v in vars_):
+            for rel, src in VENDOR_FILES.items():
+                os.makedirs(os.path.dirname(os.path.join(vendor_dir, rel)), exist_ok=True)
+                with open(os.path.join(vendor_dir, rel), "w") as f:
+                    f.write(src)
 
         def one(job: tuple[dict[str, Any], list[dict[str, Any]], int]) -> tuple[str, list[dict[str, Any]]]:
             v, cs, k = job
@@ -251,6 +257,8 @@ def run_children(cases: list[dict[str, Any]], vars_: list[dict[str, Any]], chunk
                 json.dump({"variant": v, "cases": cs}, f)
             env = {"PATH": os.environ.get("PATH", "/usr/bin:/bin"), "PYTHONPATH": gallia_src(),
                    "PYTHONHASHSEED": v["hashseed"], "PYTHONDONTWRITEBYTECODE": "1", "HOME": tmp}
+            if "vendor" in v:  # an installed vendor package: importable, imported when the variant says so
+                env["PYTHONPATH"] += os.pathsep + vendor_dir
             p = subprocess.run([PY, child, jp, op], env=env, cwd=tmp, capture_output=True, text=True, timeout=1200)
             if p.returncode != 0 or not os.path.exists(op):
                 raise Machinery(f"child {v['name']} failed rc={p.returncode}: {p.stderr[-1500:]}")
@@ -414,3 +422,346 @@ def graph_key_of_tlc(val: Any, universe: list[int]) -> tuple:
     else:
         pairs = {k: v for k, v in val["$fn"]}
     return tuple((s, tuple(sorted(pairs[s]["$set"])) if s in pairs else ()) for s in universe)
+
+
+# --------------------------------------------------------------------------
+# "vendor" process environments: the codec registry of the process is not the stock one.
+# gallia's registry of service classes (UDSService._SERVICES) is open: every subclass of UDSService registers itself
+# when its class statement runs, wherever it is defined.  A vendor package that ships classes for ISO 14229 services
+# gallia has no class for is therefore part of the process environment, and WHEN it is imported relative to gallia's
+# own modules is an import order like any other.  The modules below are written into a directory on the child's
+# PYTHONPATH; they only use gallia's public base classes, the way gallia's own service.py does.
+
+_VENDOR_HEADER = '''"""synthetic vendor package of the C16 harness: {doc}"""
+from gallia.services.uds.core.constants import UDSIsoServices
+from gallia.services.uds.core.service import (
+    PositiveResponse,
+    SpecializedSubFunctionRequest,
+    SpecializedSubFunctionResponse,
+    SpecializedSubFunctionService,
+    SubFunction,
+    SubFunctionRequest,
+    SubFunctionResponse,
+    UDSRequest,
+    UDSService,
+)
+from gallia.services.uds.core.utils import sub_function_split
+'''
+
+# a service with a sub-function byte: UDSService whose Request is a SubFunctionRequest (like gallia's ECUReset)
+_VENDOR_SF = '''
+
+class {X}Response(SubFunctionResponse, service_id=UDSIsoServices.{N}, minimal_length=2, maximal_length=None):
+    def __init__(self, sub, record=b""):
+        self.sub = sub
+        self.record = record
+        super().__init__()
+
+    @property
+    def pdu(self):
+        return bytes([self.RESPONSE_SERVICE_ID, self.sub]) + self.record
+
+    @classmethod
+    def _from_pdu(cls, pdu):
+        return cls(pdu[1], pdu[2:])
+
+    def matches(self, request):
+        return isinstance(request, {X}Request) and request.sub_function == self.sub_function
+
+    @property
+    def sub_function(self):
+        return self.sub
+
+
+class {X}Request(SubFunctionRequest, service_id=UDSIsoServices.{N}, response_type={X}Response,
+                 minimal_length=2, maximal_length=None):
+    def __init__(self, sub, record=b"", suppress_response=False):
+        self.sub = sub
+        self.record = record
+        super().__init__(suppress_response)
+
+    @property
+    def pdu(self):
+        return bytes([self.SERVICE_ID, self.sub_function_with_suppress_response_bit]) + self.record
+
+    @classmethod
+    def _from_pdu(cls, pdu):
+        sub, suppress_response = sub_function_split(pdu[1])
+        return cls(sub, pdu[2:], suppress_response)
+
+    @property
+    def sub_function(self):
+        return self.sub
+
+
+class {X}(UDSService, service_id=UDSIsoServices.{N}):
+    Response = {X}Response
+    Request = {X}Request
+'''
+
+# a service with a sub-function byte: SpecializedSubFunctionService with one class pair per sub-function (like
+# gallia's DynamicallyDefineDataIdentifier); the service class itself has no Request
+_VENDOR_SPEC_ONE = '''
+
+class {X}{S}Response(SpecializedSubFunctionResponse, service_id=UDSIsoServices.{N}, sub_function_id={sf},
+                     minimal_length=2, maximal_length=None):
+    def __init__(self, record=b""):
+        self.record = record
+        super().__init__()
+
+    @property
+    def pdu(self):
+        return bytes([self.RESPONSE_SERVICE_ID, self.SUB_FUNCTION_ID]) + self.record
+
+    @classmethod
+    def _from_pdu(cls, pdu):
+        return cls(pdu[2:])
+
+    def matches(self, request):
+        return isinstance(request, {X}{S}Request)
+
+
+class {X}{S}Request(SpecializedSubFunctionRequest, service_id=UDSIsoServices.{N}, sub_function_id={sf},
+                    response_type={X}{S}Response, minimal_length=2, maximal_length=None):
+    def __init__(self, record=b"", suppress_response=False):
+        self.record = record
+        super().__init__(suppress_response)
+
+    @property
+    def pdu(self):
+        return bytes([self.SERVICE_ID, self.sub_function_with_suppress_response_bit]) + self.record
+
+    @classmethod
+    def _from_pdu(cls, pdu):
+        return cls(pdu[2:], cls.suppress_response_set(pdu))
+'''
+_VENDOR_SPEC_SVC = '''
+
+class {X}(SpecializedSubFunctionService, service_id=UDSIsoServices.{N}):
+{inner}
+'''
+_VENDOR_SPEC_INNER = '''    class {S}(SubFunction, sub_function_id={sf}):
+        Request = {X}{S}Request
+        Response = {X}{S}Response
+'''
+
+# a service WITHOUT a sub-function byte (like gallia's ClearDiagnosticInformation): control members of the family
+_VENDOR_PLAIN = '''
+
+class {X}Response(PositiveResponse, service_id=UDSIsoServices.{N}, minimal_length=1, maximal_length=None):
+    def __init__(self, record=b""):
+        super().__init__()
+        self.record = record
+
+    @property
+    def pdu(self):
+        return bytes([self.RESPONSE_SERVICE_ID]) + self.record
+
+    @classmethod
+    def _from_pdu(cls, pdu):
+        return cls(pdu[1:])
+
+    def matches(self, request):
+        return isinstance(request, {X}Request)
+
+
+class {X}Request(UDSRequest, service_id=UDSIsoServices.{N}, response_type={X}Response,
+                 minimal_length=1, maximal_length=None):
+    def __init__(self, record=b""):
+        self.record = record
+
+    @property
+    def pdu(self):
+        return bytes([self.SERVICE_ID]) + self.record
+
+    @classmethod
+    def _from_pdu(cls, pdu):
+        return cls(pdu[1:])
+
+
+class {X}(UDSService, service_id=UDSIsoServices.{N}):
+    Response = {X}Response
+    Request = {X}Request
+'''
+
+
+def _v_sf(name: str) -> str:
+    return _VENDOR_SF.format(X="Vendor" + name, N=name)
+
+
+def _v_plain(name: str) -> str:
+    return _VENDOR_PLAIN.format(X="Vendor" + name, N=name)
+
+
+def _v_spec(name: str, subs: dict[str, int]) -> str:
+    x = "Vendor" + name
+    return ("".join(_VENDOR_SPEC_ONE.format(X=x, N=name, S=s, sf=sf) for s, sf in subs.items())
+            + _VENDOR_SPEC_SVC.format(X=x, N=name, inner="\n".join(_VENDOR_SPEC_INNER.format(X=x, S=s, sf=sf)
+                                                                   for s, sf in subs.items())))
+
+
+_AUTH_SUBS = {"DeAuthenticate": 0x00, "VerifyCertificateUnidirectional": 0x01, "AuthenticationConfiguration": 0x08}
+# ISO 14229-1 services that have a member in UDSIsoServices but no class in stock gallia
+VENDOR_SF_IDS = [0x29, 0x83, 0x86, 0x87]          # carry a sub-function byte
+VENDOR_PLAIN_IDS = [0x24, 0x2A, 0x38, 0x84]       # do not
+VENDOR_FILES: dict[str, str] = {
+    # one module, one service
+    "c16_vendor_link.py": _VENDOR_HEADER.format(doc="LinkControl") + _v_sf("LinkControl"),
+    # one module, everything gallia has no class for
+    "c16_vendor_iso.py": (_VENDOR_HEADER.format(doc="all ISO services without a class in gallia")
+                          + _v_sf("AccessTimingParameter") + _v_sf("ResponseOnEvent") + _v_sf("LinkControl")
+                          + _v_spec("Authentication", _AUTH_SUBS) + _v_plain("SecuredDataTransmission")
+                          + _v_plain("ReadScalingDataByIdentifier") + _v_plain("ReadDataByPeriodicIdentifier")
+                          + _v_plain("RequestFileTransfer")),
+    # two independent contributors: a module and a package whose __init__ pulls in its codecs
+    "c16_vendor_timing.py": (_VENDOR_HEADER.format(doc="AccessTimingParameter, Authentication")
+                             + _v_sf("AccessTimingParameter") + _v_spec("Authentication", _AUTH_SUBS)
+                             + _v_plain("ReadScalingDataByIdentifier")),
+    "c16_vendor_events/__init__.py": '"""synthetic vendor package of the C16 harness"""\n'
+                                     "from c16_vendor_events import codecs  # noqa: F401\n",
+    "c16_vendor_events/codecs.py": (_VENDOR_HEADER.format(doc="ResponseOnEvent, LinkControl")
+                                    + _v_sf("ResponseOnEvent") + _v_sf("LinkControl")
+                                    + _v_plain("SecuredDataTransmission")),
+}
+
+# Stages at which a child imports a vendor module (c16_child.vendor_stage):
+#   "pre"          before any gallia module (the vendor module pulls in gallia.services.uds.core.service itself)
+#   "post-core"    after `import gallia.services.uds` (codecs, client), before gallia.services.uds.server
+#   "post-server"  after gallia.services.uds.server (and, with import_first = commands, gallia.commands...vecu)
+#   "pre-create"   in the running event loop, right before the first judged server object is constructed
+#   "post-create"  between the construction of the first judged server and its setup()
+#   "post-setup"   after its setup(), before its model is dumped and the first request is sent
+# A GROUP is a set of twin processes: same vendor modules, registered in the same phase of the ECU's life ("phase":
+# before it is constructed / between construction and setup() / after setup()), in different orders relative to
+# gallia's modules and to each other, with different hash seeds / construction paths.  Equality (M1 / D1) is only
+# demanded INSIDE a group: a process without the vendor module, or one that registers it in another phase of the
+# ECU's life, is a different environment / a different sequence of events and outside the statement.
+_B = "before-construction"
+VENDOR_GROUPS: list[dict[str, Any]] = [
+    {"name": "link", "phase": _B, "runs": [
+        ("0", "server", False, [["pre", "c16_vendor_link"]]),
+        ("21", "server", False, [["post-server", "c16_vendor_link"]]),
+        ("22", "commands", True, [["post-server", "c16_vendor_link"]]),
+        ("23", "server", False, [["pre-create", "c16_vendor_link"]])]},
+    {"name": "iso", "phase": _B, "runs": [
+        ("24", "server", False, [["post-server", "c16_vendor_iso"]]),
+        ("0", "commands", False, [["pre", "c16_vendor_iso"]]),
+        ("25", "server", True, [["post-core", "c16_vendor_iso"]]),
+        ("26", "commands", True, [["pre-create", "c16_vendor_iso"]])]},
+    {"name": "two-contributors", "phase": _B, "runs": [
+        ("27", "server", False, [["pre", "c16_vendor_timing"], ["post-server", "c16_vendor_events"]]),
+        ("28", "server", False, [["pre", "c16_vendor_events"], ["post-server", "c16_vendor_timing"]]),
+        ("0", "commands", True, [["post-server", "c16_vendor_events"], ["post-server", "c16_vendor_timing"]]),
+        ("29", "server", False, [["post-core", "c16_vendor_timing"], ["pre-create", "c16_vendor_events"]])]},
+    {"name": "link@constructed", "phase": "between-construction-and-setup", "runs": [
+        ("0", "server", False, [["post-create", "c16_vendor_link"]]),
+        ("31", "commands", True, [["post-create", "c16_vendor_link"]])]},
+    {"name": "iso@set-up", "phase": "after-setup", "runs": [
+        ("32", "commands", False, [["post-setup", "c16_vendor_iso"]]),
+        ("0", "server", False, [["post-setup", "c16_vendor_iso"]])]},
+]
+VENDOR_STAGES = {"pre": _B, "post-core": _B, "post-server": _B, "pre-create": _B,
+                 "post-create": "between-construction-and-setup", "post-setup": "after-setup"}
+
+
+def vendor_variants(seed: int, mutant: str | None = None) -> dict[str, list[dict[str, Any]]]:
+    """group name -> process variants (run 1 = the reference of the group)"""
+    rnd = random.Random(seed + 1687)
+    out: dict[str, list[dict[str, Any]]] = {}
+    for g in VENDOR_GROUPS:
+        vs = []
+        for k, (hs, imp, via, steps) in enumerate(g["runs"]):
+            if any(VENDOR_STAGES[st] != g["phase"] for st, _m in steps):
+                raise Machinery(f"vendor group {g['name']}: a run registers services in another phase than {g['phase']}")
+            v: dict[str, Any] = {"name": f"vendor:{g['name']}#{k + 1}", "hashseed": hs, "import_first": imp,
+                                 "clock_base": 1.3e9 + rnd.randrange(10**8), "global_seed": None, "via_config": via,
+                                 "reverse": False, "vendor": {"group": g["name"], "phase": g["phase"], "steps": steps}}
+            if mutant:
+                v["mutant"] = mutant
+                v["name"] += "/" + mutant
+            vs.append(v)
+        out[g["name"]] = vs
+    return out
+
+
+# argument sets whose service lists make the model draw the services a vendor package contributes
+# (p profile, mandatory sessions, optional sessions, mandatory services, optional services, behaviour)
+VENDOR_ARGS: list[tuple[str, str, str, list[int] | None, list[int] | None, str]] = [
+    ("default", "default", "default", None, None, "default"),   # gallia's default optional list = every ISO service
+    ("half", "some", "few", [0x10, 0x87, 0x22, 0x83], [0x11, 0x27, 0x29, 0x86, 0x84, 0x2E], "default"),
+    ("svc1", "default", "few", ALL_SERVICES, [], "default"),
+    ("answers", "some", "few", [0x10, 0x22, 0x27, 0x3E], ALL_SERVICES, "nosuppress"),
+    ("half", "default", "few", [0x29, 0x86], [0x87, 0x83, 0x24, 0x38, 0x10, 0x19], "default"),  # DSC not mandatory
+    ("low", "nodefault", "few", [0x10, 0x87], [0x83, 0x84, 0x85, 0x86, 0x28], "raw"),
+]
+
+
+def vendor_family(tier: str, seed: int, base_id: int = 5_000_000) -> dict[str, list[dict[str, Any]]]:
+    """group name -> judged cases (seed x arguments); every group sees several argument sets and seeds"""
+    rnd = random.Random(seed * 7 + 1691)
+    out: dict[str, list[dict[str, Any]]] = {}
+    for gi, g in enumerate(VENDOR_GROUPS):
+        early = g["phase"] == _B
+        n = (4 if early else 2) if tier == "quick" else (12 if early else 6)
+        cases = []
+        for k in range(n):
+            prof, ms, os_, mv, ov, beh = VENDOR_ARGS[(k + gi) % len(VENDOR_ARGS)]
+            c = make_case(base_id + 1000 * gi + k, rnd.choice([rnd.randrange(0, 100), rnd.randrange(0, 2**31)]),
+                          (prof, ms, os_, "default", "default", beh))
+            if mv is not None:
+                c["params"]["mandatory_services"] = list(mv)
+            if ov is not None:
+                c["params"]["optional_services"] = list(ov)
+            c["combo"] = [prof, ms, os_, mv, ov, beh]
+            # the blocks of the contributed services come first in every session block (the cap cuts the rest)
+            c["hist"] = {"tour": 2, "cap": 110, "sa_segments": 2, "sweep": "short",
+                         "first": VENDOR_SF_IDS + VENDOR_PLAIN_IDS}
+            c["vendor_group"] = g["name"]
+            cases.append(c)
+        out[g["name"]] = cases
+    return out
+
+
+def run_vendor(fam: dict[str, list[dict[str, Any]]], vvs: dict[str, list[dict[str, Any]]],
+               workers: int = 6) -> dict[str, dict[str, dict[int, dict[str, Any]]]]:
+    """group name -> variant name -> case id -> result.  Groups that register their services while the ECU already
+    exists get one interpreter per case (a second case of the same interpreter would find them registered)."""
+    def one(name: str) -> tuple[str, dict[str, dict[int, dict[str, Any]]]]:
+        early = all(VENDOR_STAGES[st] == _B for v in vvs[name] for st, _m in v["vendor"]["steps"])
+        return name, run_children(fam[name], vvs[name], chunk=4 if early else 1, workers=workers)
+
+    with ThreadPoolExecutor(max_workers=len(fam)) as ex:
+        return dict(ex.map(one, list(fam)))
+
+
+def check_vendor_stats(res: dict[str, dict[int, dict[str, Any]]], vars_: list[dict[str, Any]],
+                       cases: list[dict[str, Any]]) -> dict[str, Any]:
+    """Machinery check of one group: the twins really are twins (same contributed classes registered at the same
+    moments of the ECU's life, at least one of them), and the arguments made the model offer contributed services.
+    What the ECU makes of them is NOT looked at here."""
+    offered = 0
+    with_sf = 0
+    regs = set()
+    for c in cases:
+        seen = set()
+        for v in vars_:
+            r = res[v["name"]][c["id"]]
+            reg = r.get("vendor")
+            if "setup_exc" in r:  # no ECU: M0 decides whether the twins agree on that
+                continue
+            if not reg or not reg.get("at_end"):
+                raise Machinery(f"vendor run {v['name']} of case {c['id']} registered no service class: {reg}")
+            seen.add(json.dumps(reg, sort_keys=True))
+            for e in r.get("model", []):
+                for s in e["svcs"]:
+                    if s["id"] in reg["at_end"]:
+                        offered += 1
+                        with_sf += bool(s["hasSf"])
+        if len(seen) != 1:
+            raise Machinery(f"vendor case {c['id']}: the processes of group {vars_[0]['vendor']['group']} are no twins, "
+                            f"their registries differ at construction / setup / end: {sorted(seen)}")
+        regs |= seen
+    if not offered:
+        raise Machinery(f"vendor group {vars_[0]['vendor']['group']}: no model offers a contributed service")
+    return {"registered": [json.loads(x) for x in sorted(regs)], "offered_contributed_services": offered,
+            "of_which_with_sub_function_list": with_sf}
